@@ -370,6 +370,65 @@ def twins(repo):
     A(text_twin('twin-dense-unit-ifexp', 'rtamt/semantics/dense_time_interpreter.py',
                 'b = b * (self.ast.U[b_unit] / self.ast.U[self.ast.unit])', 'b = (b * self.ast.U[b_unit]) / self.ast.U[self.ast.unit]', 0))
     A(text_twin('twin-docstring', OFF_D, 'class StlDiscreteTimeOfflineAstVisitor(StlAstVisitor):', 'class StlDiscreteTimeOfflineAstVisitor(StlAstVisitor):\n    """offline"""', 1))
+    A(text_twin('twin-online-since-running-min-correct', ON_D + 'since_timed_operation.py',
+                """        for i in range(self.end-self.begin+1):
+            sample_left = float("inf")
+            sample_right = self.buffer_sample_right[i]
+            for j in range(i+1,self.end+1):
+                sample_left = min(sample_left, self.buffer_sample_left[j])
+            sample_return = max(sample_return, min(sample_left, sample_right))
+""", """        sample_left = float("inf")
+        for k in range(self.end - self.begin + 1, self.end + 1):
+            sample_left = min(sample_left, self.buffer_sample_left[k])
+        for i in range(self.end - self.begin, -1, -1):
+            sample_return = max(sample_return, min(sample_left, self.buffer_sample_right[i]))
+            sample_left = min(sample_left, self.buffer_sample_left[i])
+"""))
+    A(text_twin('twin-online-once-max-of-slice', ON_D + 'once_timed_operation.py',
+                """        for i in range(self.end-self.begin+1):
+            sample_return = max(sample_return, self.buffer[i])
+""", """        for i in range(self.end - self.begin, -1, -1):
+            sample_return = max(self.buffer[i], sample_return)
+"""))
+    A(text_twin('twin-dense-online-carry-flipped-compare', ON_DENSE + 'once_timed_operation.py', 'if self.residual_start >= b[0]:', 'if b[0] <= self.residual_start:'))
+    A(text_twin('twin-dense-online-frontier-elif', ON_DENSE + 'once_timed_operation.py', 'elif b[0] <= self.residual_start < b[1]:', 'elif b[0] <= self.residual_start and self.residual_start < b[1]:'))
+    A(text_twin('twin-memo-get-is-none', 'rtamt/semantics/abstract_online_interpreter.py', '        if node.name in self.visited:\n            sample_return = self.visited[node.name]',
+                '        if self.visited.get(node.name) is not None:\n            sample_return = self.visited[node.name]'))
+    A(text_twin('twin-offline-and-comprehension', OFF_D, 'sample_return = list(map(min, zip(sample_left, sample_right)))', 'sample_return = [min(l, r) for l, r in zip(sample_left, sample_right)]'))
+    A(text_twin('twin-offline-always-pad-list', OFF_D, "            sample = sample + [float('inf')] * (end - sample_len + 1)", "            sample = list(sample) + [float('inf') for _ in range(end - sample_len + 1)]"))
+    A(text_twin('twin-offline-always-merged-range', OFF_D, """        sample_return  = [min(sample[j:j+diff+1]) for j in range(begin, end+1)]
+        tmp  = [min(sample[j:j+diff+1]) for j in range(end+1,len(sample))]
+        sample_return += tmp
+""", """        sample_return = [min(sample[j:j+diff+1]) for j in range(begin, len(sample))]
+"""))
+    A(text_twin('twin-parser-is-none', 'rtamt/syntax/ast/parser/stl/parser_visitor.py', 'if ctx.interval() == None:', 'if ctx.interval() is None:', 0))
+    A(text_twin('twin-dense-since-separate-compression-var', OFF_DENSE, """        result = max(min(o1_val, o2_val), min(o1_val, prev))
+        if result != prev or i == 0 or i == len(iout) - 1:
+            sample_return.append([t, result])
+        prev = result
+""", """        result = max(min(o1_val, o2_val), min(o1_val, prev))
+        if i == 0 or result != prev or i == len(iout) - 1:
+            sample_return.append([t, result])
+        prev = result
+"""))
+    A(text_twin('twin-explainer-rise-visit-order', 'rtamt/explanation/ltl/discrete_time/explainer.py', """        self.visit(element.children[0], [op_intervals, flag])
+        self.visit(element.children[0], [prev_intervals, not flag])
+""", """        self.visit(element.children[0], [prev_intervals, not flag])
+        self.visit(element.children[0], [op_intervals, flag])
+"""))
+    A(text_twin('twin-unit-transformer-ifexp', 'rtamt/semantics/dense_time_interpreter.py', """        b_unit = node.begin_unit
+        e_unit = node.end_unit
+        if len(node.begin_unit) == 0:
+            if len(node.end_unit) > 0:
+                b_unit = node.end_unit
+            else:
+                b_unit = self.ast.unit
+                e_unit = self.ast.unit
+        elif len(node.end_unit) == 0:
+            e_unit = node.begin_unit
+""", """        b_unit = node.begin_unit or node.end_unit or self.ast.unit
+        e_unit = node.end_unit or node.begin_unit or self.ast.unit
+"""))
     A({'id': 'twin-unused-helper', 'kind': 'twin', 'props': list(ALL), 'edits': [(OFF_D, E.append_text('def _unused_helper(x):\n    return x\n'))]})
     A({'id': 'twin-unused-helper-dense', 'kind': 'twin', 'props': list(ALL), 'edits': [(OFF_DENSE, E.append_text('def _unused_helper(x):\n    return [s for s in x]\n'))]})
     A({'id': 'twin-reformat-offline', 'kind': 'twin', 'props': list(ALL), 'edits': [(OFF_D, _reformat)]})
